@@ -38,6 +38,15 @@ theorem lifetimes_first_impl (g : Generics) : lifetimesFirst (implParams g) = tr
     obtain ⟨q, ⟨_, hq⟩, rfl⟩ := hp
     simpa [isLifetime] using hq
 
+/-- No parameter of a generated `impl` header carries a default (rustc rejects `impl<T = i32>`, and
+`impl<const N: usize = 16>` is a hard error): whatever the declaration said, and after every helper
+that extends the generics. -/
+theorem impl_params_have_no_defaults (g : Generics) : ∀ p ∈ implParams g, p.hasDefault = false := by
+  intro p hp
+  simp only [implParams, List.mem_map] at hp
+  obtain ⟨q, _, rfl⟩ := hp
+  rfl
+
 /-- **Exactly the declared parameters**: the arguments applied to the type are a permutation of the
 declared parameters (each one once, none else). -/
 theorem self_args_exact (g : Generics) :
